@@ -1,5 +1,6 @@
 import GeomV.C09.ProofsFold
 import GeomV.C09.ProofsDatum
+import GeomV.C09.ProofsInit4
 /-!
 C09: `getDatum` (datum.go) against `datum.js`, the table lookups of `DeriveConstants` against deriveConstants.js, and
 their composition with `projString` (ProofsFold) and the regenerated arithmetic (ProofsParse): what `proj.Parse`
@@ -129,7 +130,7 @@ theorem paramSame_upd (s : Model.SR ℝ) (o : Js.Obj ℝ) (h : ParamSame s o)
   constructor <;> first
     | exact h.name | exact h.datumCode | exact h.units | exact h.nadgrids | exact h.axis | exact h.lat0
     | exact h.lat1 | exact h.lat2 | exact h.latts | exact h.long0 | exact h.x0 | exact h.y0 | exact h.k0
-    | exact h.zone | exact h.fg | exact h.tm | exact h.ra | exact h.south | exact h1 | exact h2 | exact h3 | exact h4 | exact h5 | rfl
+    | exact h.zone | exact h.fg | exact h.tm | exact h.ra | exact h.south | exact h.kk | exact h.czech | exact h1 | exact h2 | exact h3 | exact h4 | exact h5 | rfl
 
 /-- the datum-table lookup -/
 def dtDatumG {α : Type} [RTrans α] (json : Model.SR α) : Model.SR α :=
@@ -387,7 +388,7 @@ theorem paramSame_axis (c : Model.SR ℝ) (oc : Js.Obj ℝ) (h : ParamSame c oc)
   constructor <;> first
     | exact h.name | exact h.datumCode | exact h.ellps | exact h.units | exact h.nadgrids | exact h.rf | exact h.lat0
     | exact h.lat1 | exact h.lat2 | exact h.latts | exact h.long0 | exact h.x0 | exact h.y0 | exact h.k0 | exact h.a
-    | exact h.b | exact h.zone | exact h.fg | exact h.tm | exact h.dp | exact h.ra | exact h.south | rfl
+    | exact h.b | exact h.zone | exact h.fg | exact h.tm | exact h.dp | exact h.ra | exact h.south | exact h.kk | exact h.czech | rfl
 
 def axG {α : Type} [RTrans α] (json : Model.SR α) : Model.SR α := if json.axis == "" then { json with axis := "enu" } else json
 def axJ {α : Type} [RTrans α] (json : Js.Obj α) : Js.Obj α :=
@@ -443,7 +444,7 @@ theorem go_deriveTail_eq_js (c : Model.SR ℝ) (oc : Js.Obj ℝ) (h : ParamSame 
     | exact hp.name | exact hp.datumCode | exact hp.ellps | exact hp.units | exact hp.nadgrids | exact hp.axis | exact hp.rf
     | exact hp.lat0 | exact hp.lat1 | exact hp.lat2 | exact hp.latts | exact hp.long0 | exact hp.x0 | exact hp.y0
     | exact hp.k0 | exact hp.a | exact hp.b | exact hp.zone | exact hp.fg | exact hp.tm | exact hp.dp | exact hp.ra
-    | exact hp.south | rfl
+    | exact hp.south | exact hp.kk | exact hp.czech | rfl
 
 /-! ## composition: what `proj.Parse` leaves for one definition = what `new Proj(def)` leaves (before `init`) -/
 
@@ -559,7 +560,7 @@ theorem go_deriveConstants_eq_js (p : Model.SR ℝ) (o : Js.Obj ℝ) (h : ParamS
       | exact c1 | exact c2 | exact c3 | exact c4 | exact c5
       | exact ht.name | exact ht.datumCode | exact ht.ellps | exact ht.units | exact ht.nadgrids | exact ht.axis
       | exact ht.lat0 | exact ht.lat1 | exact ht.lat2 | exact ht.latts | exact ht.long0 | exact ht.x0 | exact ht.y0
-      | exact ht.zone | exact ht.fg | exact ht.tm | exact ht.dp | exact ht.south
+      | exact ht.zone | exact ht.fg | exact ht.tm | exact ht.dp | exact ht.south | exact ht.kk | exact ht.czech
   have htail := go_deriveTail_eq_js (Model.deriveCore (Model.deriveTables p)) (Js.deriveCore (Js.deriveTables o)) hc
     (by show (Model.deriveTables p).datum = none; rw [k7]; exact hf.dg)
     (by show (Js.deriveTables o).datum = none; rw [j7]; exact hf.dj) c9 c11
@@ -651,5 +652,31 @@ example : ("potsdam" : String) ≠ "" ∧ shiftNZ ([5981/10, 737/10, 4182/10] : 
   · simp only [shiftNZ, Model.listGet, List.getElem?_cons_zero, Option.getD_some]; rnum; norm_num
   · unfold NZ; norm_num
   · unfold NZ; simp
+
+/-- **a parsed definition satisfies `Same`**, the hypothesis of the eight constructor theorems (`go_init_<p>_eq_js`,
+`go_<p>_fwd/inv_eq_js'`): for ONE well-formed definition string without repeated keys that the port accepts, the `*SR`
+that `proj.Parse` returns and the object `new Proj(def)` holds before `init` carry the same parameters — so
+"constructor + closure = init + method" holds for PARSED definitions, not only for abstract `Same` pairs. -/
+theorem same_of_parse (code : String) (hw : WellFormed code) (p : Model.SR ℝ)
+    (hnd : ((partsOf code).map (·.1)).Nodup) (hpm : PmsOK (partsOf code)) (hp : Model.projString code = .ok p)
+    (hza : NZ p.a) (hzb : NZ (Model.deriveTables p).b) (hzrf : NZ (Model.deriveTables p).rf) (hzk : NZ p.k0)
+    (hng : p.nadGrids = "") (hcode : p.datumCode ≠ "" ∨ shiftNZ (Model.deriveTables p).datumParams = true) :
+    Same (Model.deriveConstants p) (Js.deriveConstants (Js.projString (α := ℝ) code)) := by
+  obtain ⟨P, ⟨sp, _, _, es, e, ep2⟩, _, _⟩ := go_parse_eq_js code hw p hnd hpm hp hza hzb hzrf hzk hng hcode
+  exact ⟨P.a, P.b, P.lat0, P.lat1, P.lat2, P.latts, P.long0, P.x0, P.y0, P.k0, P.kk, P.zone, sp, P.czech, P.south, es, e, ep2⟩
+
+/-- … for example Mercator: constructor + forward closure of the PARSED `*SR` = `init` + `forward` of the parsed proj4js
+object (composition of `same_of_parse` with `go_merc_fwd_eq_js'`; the other seven projections compose the same way) -/
+theorem go_merc_fwd_parsed_eq_js (code : String) (hw : WellFormed code) (p : Model.SR ℝ)
+    (hnd : ((partsOf code).map (·.1)).Nodup) (hpm : PmsOK (partsOf code)) (hp : Model.projString code = .ok p)
+    (hza : NZ p.a) (hzb : NZ (Model.deriveTables p).b) (hzrf : NZ (Model.deriveTables p).rf) (hzk : NZ p.k0)
+    (hng : p.nadGrids = "") (hcode : p.datumCode ≠ "" ∨ shiftNZ (Model.deriveTables p).datumParams = true)
+    (hl : Model.gNaN (Model.deriveConstants p).long0 = false) (hts : NZ (Model.deriveConstants p).latTS)
+    (hk0 : NZ (Model.deriveConstants p).k0) (hk : NZ (Model.deriveConstants p).k)
+    (lon lat : ℝ) (z : Option ℝ)
+    (h90 : ¬ (90 < lat * 57.29577951308232088)) (hm90 : ¬ (lat * 57.29577951308232088 < -90)) :
+    okOf (Model.mercInit (Model.deriveConstants p) >>= fun sc => Model.mercFwd sc.1 sc.2 lon lat) =
+      xyOf (Js.mercForward (Js.mercInit (Js.deriveConstants (Js.projString (α := ℝ) code))) ⟨lon, lat, z⟩) :=
+  go_merc_fwd_eq_js' _ _ (same_of_parse code hw p hnd hpm hp hza hzb hzrf hzk hng hcode) hl hts hk0 hk lon lat z h90 hm90
 
 end GeomV.C09
